@@ -209,7 +209,7 @@ def run(ctx):
     ctx.assumptions = ['UBSan reports of kind alignment / shift / signed overflow are logged by the build but are not violations (the property lists memory errors and fatal signals)', 'a CPU-limit hit counts only when it reproduces 3 times; runaway output (> 32 MiB) is capped and counted, not judged',
                        'library-level fuzz crashes that no tool reproduces are recorded as notes (the property is about the tools)', 'external journal devices are not generated']
     tool.replay_tier(ctx, body, envinit)
-    n = int((260 if ctx.tier == 'quick' else 12000) * ctx.scale)
+    n = int((260 if ctx.tier == 'quick' else 4000) * ctx.scale)
     hyp.run_property(ctx, strategy, body, envinit, n)
     run_fuzzers(ctx, int((25 if ctx.tier == 'quick' else 600) * ctx.scale))
 
